@@ -189,6 +189,10 @@ func metaShape(r *core.Rng) []byte {
 }
 
 func cmtBody(r *core.Rng) []byte {
+	if r.Chance(1, 3) { // a real directory, so that a box that is skipped or mis-framed shows in the values
+		t, _, _ := SynthPayload(r, r.Bool(), 1)
+		return t
+	}
 	hdr := []byte("II*\x00\x08\x00\x00\x00")
 	if r.Bool() {
 		hdr = []byte("MM\x00*\x00\x00\x00\x08")
@@ -216,7 +220,7 @@ func cmtBody(r *core.Rng) []byte {
 func canonUUIDShape(r *core.Rng) []byte {
 	var kids []byte
 	parts := []func() []byte{
-		func() []byte { return rawBox("CNCV", r.Bytes(r.Pick(0, 1, 29, 30, 31))) },
+		func() []byte { return rawBox("CNCV", r.Bytes(r.Pick(0, 1, 18, 29, 30, 30, 31))) },
 		func() []byte {
 			n := r.Pick(0, 1, 4, 5, 6, 0xffff, 0x7fffffff)
 			real := n
@@ -350,6 +354,25 @@ func TIFFShape(r *core.Rng) ([]byte, string) {
 				ts = typeSize[ty]
 			}
 			switch {
+			case tg == 0x014a && r.Chance(1, 2):
+				// SubIFDs as a table of 2..12 offsets: null offsets, offsets behind the reader, beyond
+				// the end, and real directories
+				k := r.Pick(2, 3, 6, 8, 9, 10, 12)
+				copy(e[2:], u16(4))
+				copy(e[4:], u32(uint32(k)))
+				copy(e[8:], u32(uint32(len(out))))
+				tbl := len(out)
+				out = append(out, make([]byte, 4*k)...)
+				for j := 0; j < k; j++ {
+					off := uint32(r.Pick(0, 0, 4, 8, total+100, 0x7fffffff))
+					if depth < 1 && r.Chance(1, 4) {
+						off = uint32(len(out))
+						copy(out[tbl+4*j:], u32(off))
+						dir(0, depth+2)
+						continue
+					}
+					copy(out[tbl+4*j:], u32(off))
+				}
 			case (tg == 0x8769 || tg == 0x8825 || tg == 0x014a) && depth < 2 && r.Chance(2, 3):
 				k := 1
 				if tg == 0x8825 {
